@@ -624,7 +624,7 @@ impl Runner {
         let shards = THREADS.min(cases.max(1) as usize).max(1);
         let per = (cases + shards as u64 - 1) / shards as u64;
         let stop = AtomicBool::new(false);
-        let results: Mutex<Vec<(Stats, Option<(C, Fail)>)>> = Mutex::new(Vec::new());
+        let results: Mutex<Vec<(usize, Stats, Option<(C, Fail)>)>> = Mutex::new(Vec::new());
         let known: Vec<String> = self.known.iter().filter(|k| k.property == self.prop).map(|k| k.sig.clone()).collect();
         let (seed, prop) = (self.seed, self.prop);
         std::thread::scope(|s| {
@@ -692,13 +692,16 @@ impl Runner {
                     }
                     let mut st = st.into_inner();
                     st.frozen = false;
-                    results.lock().unwrap().push((st, found));
+                    results.lock().unwrap().push((shard, st, found));
                 });
             }
         });
         let mut stage = Stats::default();
         let mut first: Option<(C, Fail)> = None;
-        for (st, f) in results.into_inner().unwrap() {
+        // merge in shard order so that samples and the reported failure do not depend on thread timing
+        let mut shard_results = results.into_inner().unwrap();
+        shard_results.sort_by_key(|x| x.0);
+        for (_, st, f) in shard_results {
             stage.merge(st);
             if first.is_none() {
                 first = f;
